@@ -594,8 +594,9 @@ def replay(V, pid, cases, sample_filter=None):
                     raise MachineryError(detail)
                 V.violation({'pid': pid, 'kind': kind, 'case': c}, detail,
                             finding=fid)
-            if docsize(c) >= 3 and (sample_filter is None
-                                    or sample_filter(c)):
+            if docsize(c) >= 3 and (
+                    len(V.samples) < 2 or c['res'][0] == 'VAL') and (
+                    sample_filter is None or sample_filter(c)):
                 V.sample({'model': c['model'], 'type': c['dt'],
                           'document': render.render(
                               c['doc'], loadreplay.ctx()['implicit'])[0],
@@ -702,7 +703,9 @@ def run(pid, tier, replay=None, extra=None):
                 replay_cases(V, pid, cases)
     if extra:
         extra(V, tier)
-    V.exhaustive = True
+    # complete at model level (TLC); the replay is complete only if no
+    # rejected document was left to the model-level verdict alone
+    V.exhaustive = V.notes.get('_skipped', 0) == 0
     return V.finish(RULES.get(pid, RULES['C01']))
 
 
